@@ -292,7 +292,7 @@ fn run_c08(ctx: &Ctx) -> Run {
         }
         let n = ctx.n(200_000, 6_000_000) / threads as u64;
         for _ in 0..n {
-            let flavour = *rng.pick(&["antichain", "complete", "multiroot", "lowres", "lowres", "overlap", "overlap", "ancestors", "lookalike", "lookalike"]);
+            let flavour = *rng.pick(&["antichain", "complete", "multiroot", "lowres", "lowres", "overlap", "overlap", "ancestors", "lookalike", "lookalike", "spine"]);
             if rng.chance(0.1) {
                 // history: a call that fails half way (a complete sibling group on a face that does not exist, after some valid
                 // cells) must leave nothing behind for the next call on this thread
@@ -330,7 +330,7 @@ fn run_c10(ctx: &Ctx) -> Run {
         }
         let n = ctx.n(200_000, 6_000_000) / threads as u64;
         for _ in 0..n {
-            let flavour = *rng.pick(&["antichain", "complete", "multiroot", "lowres", "lowres", "lookalike"]);
+            let flavour = *rng.pick(&["antichain", "complete", "multiroot", "lowres", "lowres", "lookalike", "spine"]);
             if rng.chance(0.1) {
                 // history: a call that fails half way must leave nothing behind for the next call on this thread
                 let mut hostile: Vec<u64> = gen::cell_set(&mut rng, "antichain").iter().take(20).map(|c| encode(*c)).collect();
